@@ -278,7 +278,7 @@ def r08_2(prog, rep):
         for ix_text, ix in (("%s.m" % par, m), ("(%s.m - 1)" % par, m - 1), ("(%s.m + 1)" % par, m + 1), ("0", 0)):
             if 0 <= ix < len(tab):
                 init["__mon_yday[%s]" % ix_text] = tab[ix]
-        w = _AW(itf, {"nd", "__mon_yday"}, init=init)
+        w = _AW(itf, {"nd", "__mon_yday"} | {l_["n"] for l_ in itf.locals if "[" not in (l_.get("t") or "") and "*" not in (l_.get("t") or "")}, init=init)
         w.run()
         vals = {st.get("nd") for st in w.exit_stores}
         return vals.pop() if len(vals) == 1 else None
